@@ -31,9 +31,9 @@ type flowGroup struct {
 }
 
 var flowGroups = []flowGroup{
-	{"ExprFlow", "how expressions evaluate their operands: the dispatcher of invokeExpr (identifiers, literals, parentheses, function literals, operators) and the forms with several operands - list and map literals, ?:, ??, assignment expressions, in",
-		[]string{"vm/vmExpr.go"},
-		[]string{"invokeExpr", "invokeArrayExpr", "invokeMapExpr", "invokeTernaryOpExpr", "invokeNilCoalescingOpExpr", "invokeLetsExpr", "invokeIncludeExpr"}, vmRename},
+	{"ExprFlow", "how expressions evaluate their operands: the dispatcher of invokeExpr (identifiers, literals, parentheses, function literals, operators) and the forms with several operands - list and map literals, ?:, ??, assignment expressions, in, and the short-circuit operators && and ||",
+		[]string{"vm/vmExpr.go", "vm/vmOperator.go"},
+		[]string{"invokeExpr", "invokeArrayExpr", "invokeMapExpr", "invokeTernaryOpExpr", "invokeNilCoalescingOpExpr", "invokeLetsExpr", "invokeIncludeExpr", "invokeBinaryOperator"}, vmRename},
 	{"ContFlow", "the container paths: index, slice, len, member and make expressions, every assignment target (vm/vmLetExpr.go), the map / append / hashability helpers, delete and the two-value map read",
 		[]string{"vm/vmExpr.go", "vm/vmLetExpr.go", "vm/vm.go", "vm/vmStmt.go"},
 		[]string{"invokeItemExpr", "invokeSliceExpr", "invokeLenExpr", "invokeMemberExpr", "invokeMakeExpr",
